@@ -74,7 +74,7 @@ Qed.
 (* the same-segment term is the nested integral over the triangle 0 < u' < u < T *)
 Lemma same_int (X Y : fmat) T :
   is_CInt (fun u => cmul' (cmul' (cexp' (- w * u)) (beta X u)) (gamma Y u)) 0 T
-          (same_sum d (fun i j m n => soi_core RO ((ev i - ev j) - w) (w + (ev m - ev n))
+          (same_sum d (fun i j m n => soi_core_x RO ((ev i - ev j) - w) (w + (ev m - ev n))
                                                (((ev i - ev j) - w) + (w + (ev m - ev n))) T) X Y).
 Proof.
   rewrite same_sum_S4.
@@ -87,8 +87,8 @@ Proof.
     apply (is_CInt_ext (fun u => cmul' (cmul' (X i j) (Y m n))
                                    (cmul' (cexp' (((ev i - ev j) - w) * u)) (Jc (w + (ev m - ev n)) u)))).
     reflexivity.
-    replace (cmul' (cmul' (soi_core RO ((ev i - ev j) - w) (w + (ev m - ev n)) (((ev i - ev j) - w) + (w + (ev m - ev n))) T) (X i j)) (Y m n))
-      with (cmul' (cmul' (X i j) (Y m n)) (soi_core RO ((ev i - ev j) - w) (w + (ev m - ev n)) (((ev i - ev j) - w) + (w + (ev m - ev n))) T)) by ring.
+    replace (cmul' (cmul' (soi_core_x RO ((ev i - ev j) - w) (w + (ev m - ev n)) (((ev i - ev j) - w) + (w + (ev m - ev n))) T) (X i j)) (Y m n))
+      with (cmul' (cmul' (X i j) (Y m n)) (soi_core_x RO ((ev i - ev j) - w) (w + (ev m - ev n)) (((ev i - ev j) - w) + (w + (ev m - ev n))) T)) by ring.
     apply is_CInt_cmul_l. apply soi_core_integral.
 Qed.
 
@@ -103,7 +103,7 @@ End TimeDomain.
 (* ------------------------------------------------------------------ the model's segments *)
 Section Pulse.
 Variable d : nat.
-Variables (thr : R) (omega : list R) (basis nopers : list (Mat (T:=R))).
+Variables (thr thr2 : R) (omega : list R) (basis nopers : list (Mat (T:=R))).
 Notation Seg := (SegData (T:=R)).
 Notation na := (length nopers).
 Notation nk := (length basis).
@@ -130,7 +130,7 @@ Definition seg_td (a b k l o : nat) (s : Seg) (tg : R) : Prop :=
   (forall u, is_CInt (fun u' => cmul' (cexp' (w * u')) (bbl u')) 0 u (gbl u)) /\
   (* same-segment term = nested integral over the triangle *)
   is_CInt (fun u => cmul' (cmul' (cexp' (- w * u)) (bak u)) (gbl u)) 0 (seg_dt s)
-          (a5get RO (seg_same d na nk no omega s) a b k l o) /\
+          (a5get RO (seg_same d thr2 na nk no omega s) a b k l o) /\
   (* ctrlmat_step = phase * first-order integral over the segment *)
   a3get RO (seg_step s) a k o = cmul' (cexp' (w * tg)) (gak (seg_dt s)) /\
   a3get RO (seg_step s) b l o = cmul' (cexp' (w * tg)) (gbl (seg_dt s)).
@@ -150,23 +150,25 @@ Proof.
 Qed.
 
 Lemma fresh_seg_td a b k l o ev V Q tg dt nc :
-  0 <= thr -> length nc = na ->
+  0 <= thr -> 0 <= thr2 -> length nc = na ->
   (a < na)%nat -> (b < na)%nat -> (k < nk)%nat -> (l < nk)%nat -> (o < no)%nat ->
   (forall m n, (m < d)%nat -> (n < d)%nat ->
      let x := vg RO omega o + (vg RO ev m - vg RO ev n) in x = 0 \/ thr < Rabs (x * dt)) ->
+  (forall m n, (m < d)%nat -> (n < d)%nat -> regular thr2 (vg RO omega o + (vg RO ev m - vg RO ev n)) dt) ->
   seg_td a b k l o (ev, dt, so_NT RO d V nopers nc, so_BT RO d V Q basis,
                     cm_step RO d thr ev V Q tg dt omega basis nopers nc) tg.
 Proof.
-  intros Hthr HL Ha Hb Hk Hl Ho Hmask. unfold seg_td. cbn [seg_ev seg_dt seg_X seg_step seg_same snd].
+  intros Hthr Hthr2 HL Ha Hb Hk Hl Ho Hmask Hreg. unfold seg_td. cbn [seg_ev seg_dt seg_X seg_step seg_same snd].
   split; [intros u; apply gamma_int|]. split; [intros u; apply gamma_int|].
   split; [|split; apply cm_step_gamma; auto].
   rewrite so_same_get by (auto; rewrite ?so_NT_length, ?so_BT_length, ?map_length; auto).
   rewrite (nth_map_lt _ omega o 0) by auto.
-  rewrite (same_sum_ext _ (fun i j m n => soi_core RO ((vg RO ev i - vg RO ev j) - vg RO omega o)
+  rewrite (same_sum_ext _ (fun i j m n => soi_core_x RO ((vg RO ev i - vg RO ev j) - vg RO omega o)
              (vg RO omega o + (vg RO ev m - vg RO ev n))
              (((vg RO ev i - vg RO ev j) - vg RO omega o) + (vg RO omega o + (vg RO ev m - vg RO ev n))) dt)).
   - apply same_int.
-  - intros i j m n Hi Hj Hm Hn. rewrite t4get_soi_tab by auto. apply soi_entry_core.
+  - intros i j m n Hi Hj Hm Hn. rewrite t4get_soi_tab by auto. rewrite soi_entry_core.
+    apply soi_core_regular; auto. apply regular_a; auto.
 Qed.
 
 (* F2_assembly, the part that is proved: the entry of the model's second-order filter function is
@@ -174,25 +176,26 @@ Qed.
    and for every segment D_g is the nested time-ordered integral of the segment's time-domain control
    matrix and step_g its Fourier integral times the phase e^{i w t_g}.                                    *)
 Theorem F2_assembly_partial evs Vs Qs ncoeffs dts ts a b k l o :
-  0 <= thr ->
+  0 <= thr2 <= thr ->
   length evs = length dts -> length Vs = length dts ->
   (length dts <= length Qs)%nat -> (length dts <= length ts)%nat -> length ncoeffs = na ->
   (a < na)%nat -> (b < na)%nat -> (k < nk)%nat -> (l < nk)%nat -> (o < no)%nat ->
-  no_taylor d thr omega evs dts o ->
+  no_taylor d omega thr evs dts o ->
   let segs := fresh_segs d thr omega basis nopers evs Vs Qs ts dts (transpose_coeffs RO (length dts) ncoeffs) in
-  a5get RO (second_order_ff RO d thr evs Vs Qs omega basis nopers ncoeffs dts ts (None, None)) a b k l o =
-    so_spec d na nk no omega a b k l o false segs 0c /\
+  a5get RO (second_order_ff RO d thr thr2 evs Vs Qs omega basis nopers ncoeffs dts ts (None, None)) a b k l o =
+    so_spec d thr2 na nk no omega a b k l o false segs 0c /\
   Forall2 (seg_td a b k l o) segs (firstn (length dts) ts).
 Proof.
-  intros Hthr H1 H2 H3 H4 H5 Ha Hb Hk Hl Ho Hmask segs. split.
+  intros [Hthr2 Hle] H1 H2 H3 H4 H5 Ha Hb Hk Hl Ho Hmask segs. assert (Hthr : 0 <= thr) by lra.
+  pose proof (no_taylor_mono d omega _ _ _ _ _ Hle Hmask) as Hmask2. split.
   - apply second_order_ff_get; auto.
   - unfold segs. clear segs.
     assert (Hnc : forall nc, In nc (transpose_coeffs RO (length dts) ncoeffs) -> length nc = na)
       by (intros nc Hin; rewrite (transpose_coeffs_rows _ _ _ Hin); exact H5).
     assert (HL : length (transpose_coeffs RO (length dts) ncoeffs) = length dts) by apply transpose_coeffs_length.
     revert Hnc HL. generalize (transpose_coeffs RO (length dts) ncoeffs) as ncs.
-    revert Vs Qs ts dts H1 H2 H3 H4 Hmask.
-    induction evs as [|ev evs IH]; intros Vs Qs ts dts H1 H2 H3 H4 Hmask ncs Hnc HL.
+    revert Vs Qs ts dts H1 H2 H3 H4 Hmask Hmask2.
+    induction evs as [|ev evs IH]; intros Vs Qs ts dts H1 H2 H3 H4 Hmask Hmask2 ncs Hnc HL.
     + destruct dts; [|discriminate]. simpl. constructor.
     + destruct dts as [|dt dts]; [discriminate|]. destruct Vs as [|V Vs]; [discriminate|].
       destruct Qs as [|Q Qs]; [simpl in H3; lia|]. destruct ts as [|tg ts]; [simpl in H4; lia|].
@@ -200,8 +203,10 @@ Proof.
       cbn [fresh_segs firstn length]. constructor.
       * apply fresh_seg_td; auto. apply Hnc; left; reflexivity.
         intros m n Hm Hn. apply (Hmask ev dt); auto. left; reflexivity.
+        intros m n Hm Hn. apply (Hmask2 ev dt); auto. left; reflexivity.
       * apply IH; simpl in *; try lia.
         intros ev' dt' Hin. apply Hmask. right; auto.
+        intros ev' dt' Hin. apply Hmask2. right; auto.
         intros nc' Hin. apply Hnc. right; auto.
 Qed.
 End Pulse.
